@@ -163,6 +163,8 @@ class Program:
             cmd = ['cargo', '+nightly', 'rustc', '--offline', '-p', crate, '--lib']
             if crate == 'mpd_protocol':
                 cmd += ['--features', 'async']
+            elif getattr(self, 'features', None):
+                cmd += ['--features', ','.join(self.features)]
             cmd += ['--', '-Zunpretty=mir', '-C', 'debug-assertions=on', '-Zub-checks=no', '-C', 'overflow-checks=on']
             with open(out, 'w') as fo:
                 r = subprocess.run(cmd, cwd=WS, env=env, stdout=fo, stderr=subprocess.PIPE, text=True)
